@@ -1152,11 +1152,13 @@ def run(repo: Repo) -> Result:
         "raise is consistent with the invalid specification: (R7) Rule without verb, import type, subject or object; (R1) 'anything' with "
         "a verb other than should_not, and no rewrite of the configuration hides a value from a later check; (R5) should_not with another "
         "verb (requirement class and pipeline); (R2) module lists before a side was selected, LayerRule methods before layers_that / "
-        "based_on, DiagramRule without file or tags, invalid option combinations and module_path outside root_path of "
+        "based_on, DiagramRule without file or tags (each tag's own search must reject its absence; two independently found tag positions "
+        "must be related before the text between them is used), invalid option combinations and module_path outside root_path of "
         "get_evaluable_architecture; (R6) every module filter handed to a search reaches networkx' raising successors/predecessors on "
         "every path, every requested layer name is a raising subscript; (R3) AssertionError is raised only from evaluation results or "
         "caught verdicts, no assert statement; (R4) no broad handler, no lookup-error handler around graph accesses or repo calls, caught "
-        "AssertionErrors are passed on."
+        "AssertionErrors are passed on - `with` blocks whose context manager swallows exceptions (contextlib.suppress, a repository class "
+        "whose __exit__ can return a truthy value) count as handlers, in the symbolic runs as well."
     )
     res.not_decided = "arbitrary call sequences: each obligation is about one call of one public method on an arbitrary object state; histories that defeat a check through state the check does not read are out of scope (see C16.R2). Regex filters: C11.R2."
     res.trusted_base = [
